@@ -119,7 +119,7 @@ example : (⟨.GET, false, .invalid, .absent, .absent, false⟩ : Req).noCredent
 
 /-! ## the credential checks as code, over histories of password changes and requests -/
 
-private theorem authC_run (verify : Bytes → Bytes → Bool) (σ : Bytes) (ck : Bool) (q : RawReq)
+private theorem authC_run (verify : Str → Str → Bool) (σ : Str) (ck : Bool) (q : RawReq)
     (h : (authC verify σ ck q).handlerRan = true) : ck = true ∨ carriesValidPassword verify σ q = true := by
   unfold authC at h
   by_cases hc : ck = true
@@ -135,8 +135,8 @@ private theorem authC_run (verify : Bytes → Bytes → Bool) (σ : Bytes) (ck :
       · exact hv
       · simp [hv, Outcome.handlerRan] at h
 
-private theorem serveC_run (verify : Bytes → Bytes → Bool) (r : Route) (hw : ∀ m ∈ r.methods, m ∈ r.wrapped)
-    (σ : Bytes) (ck : Bool) (q : RawReq) (h : (serveC verify r σ ck q).handlerRan = true) :
+private theorem serveC_run (verify : Str → Str → Bool) (r : Route) (hw : ∀ m ∈ r.methods, m ∈ r.wrapped)
+    (σ : Str) (ck : Bool) (q : RawReq) (h : (serveC verify r σ ck q).handlerRan = true) :
     ck = true ∨ carriesValidPassword verify σ q = true := by
   unfold serveC at h
   split at h; · simp [Outcome.handlerRan] at h
@@ -149,7 +149,7 @@ private theorem serveC_run (verify : Bytes → Bytes → Bool) (r : Route) (hw :
   simp only [this, if_true] at h
   exact authC_run verify σ ck q h
 
-private theorem serveC_setcookie (verify : Bytes → Bytes → Bool) (r : Route) (σ : Bytes) (ck : Bool) (q : RawReq)
+private theorem serveC_setcookie (verify : Str → Str → Bool) (r : Route) (σ : Str) (ck : Bool) (q : RawReq)
     (h : serveC verify r σ ck q = .run true) : carriesValidPassword verify σ q = true := by
   unfold serveC at h
   split at h; · cases h
@@ -172,7 +172,7 @@ private theorem serveC_setcookie (verify : Bytes → Bytes → Bool) (r : Route)
 /-- **no handler body without a credential — every route, method, header text, whatever argon2 says, in any world**:
     on every mitmweb route the handler body runs only if the request presents a session cookie this Application issued
     or the password extracted from its `Authorization` / `token` is accepted by the password configuration in force. -/
-theorem handler_needs_credential (verify : Bytes → Bytes → Bool) :
+theorem handler_needs_credential (verify : Str → Str → Bool) :
     ∀ r ∈ webRoutes, r.appRoute = true → ∀ (w : World) (q : RawReq),
       (serveC verify r w.password (w.cookieOk q) q).handlerRan = true →
       w.cookieOk q = true ∨ carriesValidPassword verify w.password q = true := by
@@ -182,7 +182,7 @@ theorem handler_needs_credential (verify : Bytes → Bytes → Bool) :
 /-- **session cookies trace back to a password**: after any history of password changes and requests, every session
     cookie that exists was either there at the start or was issued to a request of the history that carried a password
     valid under the configuration in force at that moment. -/
-theorem issued_cookie_provenance (verify : Bytes → Bytes → Bool) (hashOk : Bytes → Bool) :
+theorem issued_cookie_provenance (verify : Str → Str → Bool) (hashOk : Str → Bool) :
     ∀ (evs : List Ev) (w0 : World) (c : Nat), c ∈ (runW verify hashOk w0 evs).issued →
       c ∈ w0.issued ∨ ∃ pre r q post, evs = pre ++ Ev.req r q c :: post ∧
         carriesValidPassword verify (runW verify hashOk w0 pre).password q = true := by
@@ -210,7 +210,7 @@ theorem issued_cookie_provenance (verify : Bytes → Bytes → Bool) (hashOk : B
 /-- **over rotation histories**: start with no session cookie issued; after any history, a request on a mitmweb route
     reaches its handler only if it carries the password of the configuration in force *now*, or a cookie that an
     earlier request of this very history obtained with the password in force *then*. -/
-theorem hist_no_credential_no_handler (verify : Bytes → Bytes → Bool) (hashOk : Bytes → Bool) (p0 : Bytes) :
+theorem hist_no_credential_no_handler (verify : Str → Str → Bool) (hashOk : Str → Bool) (p0 : Str) :
     ∀ r ∈ webRoutes, r.appRoute = true → ∀ (evs : List Ev) (q : RawReq),
       let w := runW verify hashOk ⟨p0, []⟩ evs
       (serveC verify r w.password (w.cookieOk q) q).handlerRan = true →
@@ -233,8 +233,8 @@ theorem hist_no_credential_no_handler (verify : Bytes → Bytes → Bool) (hashO
 
 /-- **a rotated plaintext password is revoked at once**: after `web_password` is set to a non-empty plaintext `v`, a
     cookie-less request whose extracted password differs from `v` is refused on every mitmweb route, whatever was valid before -/
-theorem rotation_revokes_old_password (verify : Bytes → Bytes → Bool) (hashOk : Bytes → Bool) :
-    ∀ r ∈ webRoutes, r.appRoute = true → ∀ (w : World) (v fresh : Bytes) (q : RawReq) (pw : Bytes),
+theorem rotation_revokes_old_password (verify : Str → Str → Bool) (hashOk : Str → Bool) :
+    ∀ r ∈ webRoutes, r.appRoute = true → ∀ (w : World) (v fresh : Str) (q : RawReq) (pw : Str),
       v ≠ [] → v.head? ≠ some 36 → q.cookie = none → extractPassword q = some pw → pw ≠ v →
       let w' := (stepW verify hashOk w (.setPw v fresh)).1
       (serveC verify r w'.password (w'.cookieOk q) q).handlerRan = false := by
@@ -255,7 +255,7 @@ theorem rotation_revokes_old_password (verify : Bytes → Bytes → Bool) (hashO
 
 /-- the raw-request model refines the abstract one: with the empty password invalid (WebAuth never configures an
     empty plaintext; an argon2 hash of the empty string is the operator's choice), `serveC` is `serve` of the abstraction -/
-theorem serveC_eq_serve (verify : Bytes → Bytes → Bool) (r : Route) (σ : Bytes) (ck : Bool) (q : RawReq)
+theorem serveC_eq_serve (verify : Str → Str → Bool) (r : Route) (σ : Str) (ck : Bool) (q : RawReq)
     (h0 : isValidPassword verify σ [] = false) :
     serveC verify r σ ck q = serve r (abstractReq verify σ ck q) := by
   have hauth : authC verify σ ck q = authDecision (abstractReq verify σ ck q) := by
